@@ -145,10 +145,27 @@ pub struct Engine<'a> {
     pub rng: Rng,
     pub cfg: Cfg,
     pub universe: u32,
+    /// light sweep (Miri / valgrind): look up only the class just operated on and one other
+    pub light: bool,
+    pub focus: u32,
 }
 
 impl<'a> Engine<'a> {
+    /// open a monitored step; in light mode (Miri) the description is not built
+    fn step(&mut self, op: &'static str, d: impl FnOnce() -> String) {
+        if self.light {
+            self.h.begin_step(op, String::new());
+            self.cx.rep.hit(op);
+        } else {
+            self.h.begin_step(op, d());
+        }
+    }
     fn pick_class<F: Fam, const N: usize>(&mut self, s: &Sut<F, N>) -> u32 {
+        let c = self.pick_class0(s);
+        self.focus = c;
+        c
+    }
+    fn pick_class0<F: Fam, const N: usize>(&mut self, s: &Sut<F, N>) -> u32 {
         if !s.order.is_empty() && self.rng.below(8) < self.cfg.p_present {
             match self.rng.below(4) {
                 0 => s.order[0],
@@ -249,7 +266,11 @@ impl<'a> Engine<'a> {
         if self.h.failed {
             return;
         }
+        let other = 1 + (self.focus + 1 + self.h.step) % self.universe.max(1);
         for class in 1..=self.universe {
+            if self.light && class != self.focus && class != other {
+                continue;
+            }
             let want = s.model.get(class).cloned();
             for byq in [true, false] {
                 let m = s.fr.get();
@@ -288,11 +309,11 @@ impl<'a> Engine<'a> {
         let class = self.pick_class(s);
         let tag = self.h.tag();
         let name = if replace { "replace" } else { "insert" };
-        self.h.begin_step(name, format!("{}(K{}#{})", name, class, tag));
+        self.step(name, || format!("{}(K{}#{})", name, class, tag));
         self.fp_step(s, if replace { O_REPLACE } else { O_INSERT }, class, 0);
         let pre = s.model.get(class).cloned();
         let full = s.model.is_full();
-        self.cx.rep.hit(&format!("{}:{}:{}", name, pos_name(&s.order, class), fill_name(s.model.len(), N)));
+        if !self.light { self.cx.rep.hit(&format!("{}:{}:{}", name, pos_name(&s.order, class), fill_name(s.model.len(), N))); }
         let k = F::K::mk(class, tag);
         let kid = k.id();
         let m = s.fr.get_mut();
@@ -356,9 +377,9 @@ impl<'a> Engine<'a> {
         let class = self.pick_class(s);
         let byq = self.rng.chance(1, 2);
         let name = if take { "take" } else { "remove" };
-        self.h.begin_step(name, format!("{}({}{})", name, if byq { "Q" } else { "K" }, class));
+        self.step(name, || format!("{}({}{})", name, if byq { "Q" } else { "K" }, class));
         self.fp_step(s, if take { O_TAKE } else { O_REMOVE }, class, u64::from(byq));
-        self.cx.rep.hit(&format!("{}:{}:{}", name, pos_name(&s.order, class), fill_name(s.model.len(), N)));
+        if !self.light { self.cx.rep.hit(&format!("{}:{}:{}", name, pos_name(&s.order, class), fill_name(s.model.len(), N))); }
         let m = s.fr.get_mut();
         let r: (bool, Option<(u32, u64)>) = lookup!(F, class, byq, |q| {
             if take {
@@ -386,12 +407,12 @@ impl<'a> Engine<'a> {
 
     fn op_retain<F: Fam, const N: usize>(&mut self, s: &mut Sut<F, N>) {
         let mask = self.rng.next();
-        self.h.begin_step("retain", format!("retain(mask={:#06x})", mask & 0xFFFF));
+        self.step("retain", || format!("retain(mask={:#06x})", mask & 0xFFFF));
         self.fp_step(s, O_RETAIN, 0, mask & ((1 << (self.universe + 1)) - 1));
         let keep = |class: u32| (mask >> (class % 60)) & 1 == 1;
         let nkeep = s.model.ents.iter().filter(|e| keep(e.class)).count();
         let outcome = if nkeep == s.model.len() { "keep-all" } else if nkeep == 0 { "drop-all" } else { "some" };
-        self.cx.rep.hit(&format!("retain:{}:{}", outcome, fill_name(s.model.len(), N)));
+        if !self.light { self.cx.rep.hit(&format!("retain:{}:{}", outcome, fill_name(s.model.len(), N))); }
         let mut calls: Vec<u32> = Vec::new();
         s.fr.get_mut().retain(|k| {
             k.chk("retain() element");
@@ -409,9 +430,9 @@ impl<'a> Engine<'a> {
     }
 
     fn op_clear<F: Fam, const N: usize>(&mut self, s: &mut Sut<F, N>) {
-        self.h.begin_step("clear", "clear()".into());
+        self.step("clear", || "clear()".into());
         self.fp_step(s, O_CLEAR, 0, 0);
-        self.cx.rep.hit(&format!("clear:{}", fill_name(s.model.len(), N)));
+        if !self.light { self.cx.rep.hit(&format!("clear:{}", fill_name(s.model.len(), N))); }
         s.fr.get_mut().clear();
         s.model.clear();
     }
@@ -424,7 +445,7 @@ impl<'a> Engine<'a> {
             let t = self.h.tag();
             items.push((c, t));
         }
-        self.h.begin_step("extend", format!("extend({:?})", items));
+        self.step("extend", || format!("extend({:?})", items));
         let mut aux = 0u64;
         for (c, _) in &items {
             aux = aux.wrapping_mul(31).wrapping_add(u64::from(*c));
@@ -443,7 +464,7 @@ impl<'a> Engine<'a> {
                 model.push(Ent { class: k.class(), tag: k.tag(), kid: k.id(), vid: 0, payload: 0 });
             }
         }
-        self.cx.rep.hit(&format!("extend:{}:{}", if overflow { "overflow" } else if n == 0 { "empty" } else { "fits" }, fill_name(s.model.len(), N)));
+        if !self.light { self.cx.rep.hit(&format!("extend:{}:{}", if overflow { "overflow" } else if n == 0 { "empty" } else { "fits" }, fill_name(s.model.len(), N))); }
         let m = s.fr.get_mut();
         let r = fault::catch(|| m.extend(ks));
         match r {
@@ -466,9 +487,9 @@ impl<'a> Engine<'a> {
         let len = s.model.len();
         let j = self.rng.usize_below(len + 2);
         let forget = self.cfg.allow_forget && self.rng.chance(1, 4);
-        self.h.begin_step("drain", format!("drain() take {} then {}", j, if forget { "forget" } else { "drop" }));
+        self.step("drain", || format!("drain() take {} then {}", j, if forget { "forget" } else { "drop" }));
         self.fp_step(s, O_DRAIN, j as u32, u64::from(forget));
-        self.cx.rep.hit(&format!("drain:{}:{}:{}", if j == 0 { "take0" } else if j >= len { "take-all" } else { "take-some" }, if forget { "forget" } else { "drop" }, fill_name(len, N)));
+        if !self.light { self.cx.rep.hit(&format!("drain:{}:{}:{}", if j == 0 { "take0" } else if j >= len { "take-all" } else { "take-some" }, if forget { "forget" } else { "drop" }, fill_name(len, N))); }
         let before = s.model.clone();
         let mut yielded: Vec<u32> = Vec::new();
         {
@@ -547,9 +568,9 @@ impl<'a> Engine<'a> {
         let len = s.model.len();
         let j = self.rng.usize_below(len + 2);
         let forget = self.cfg.allow_forget && self.rng.chance(1, 4);
-        self.h.begin_step("into_iter", format!("into_iter() take {} then {}", j, if forget { "forget" } else { "drop" }));
+        self.step("into_iter", || format!("into_iter() take {} then {}", j, if forget { "forget" } else { "drop" }));
         self.fp_step(s, O_CONSUME, j as u32, u64::from(forget));
-        self.cx.rep.hit(&format!("into_iter:{}:{}:{}", if j == 0 { "take0" } else if j >= len { "take-all" } else { "take-some" }, if forget { "forget" } else { "drop" }, fill_name(len, N)));
+        if !self.light { self.cx.rep.hit(&format!("into_iter:{}:{}:{}", if j == 0 { "take0" } else if j >= len { "take-all" } else { "take-some" }, if forget { "forget" } else { "drop" }, fill_name(len, N))); }
         let before = std::mem::replace(&mut s.model, Dict::new(N));
         let set = s.fr.take();
         let mut it = set.into_iter();
@@ -603,9 +624,9 @@ impl<'a> Engine<'a> {
     fn op_iter_probe<F: Fam, const N: usize>(&mut self, s: &mut Sut<F, N>) {
         let len = s.model.len();
         let j = self.rng.usize_below(len + 1);
-        self.h.begin_step("iter_probe", format!("Set::iter() probe, clone/count at step {}", j));
+        self.step("iter_probe", || format!("Set::iter() probe, clone/count at step {}", j));
         self.fp_step(s, O_ITER, j as u32, 0);
-        self.cx.rep.hit(&format!("set-iter:{}", fill_name(len, N)));
+        if !self.light { self.cx.rep.hit(&format!("set-iter:{}", fill_name(len, N))); }
         let m = s.fr.get();
         let mut it = m.iter();
         let mut seq: Vec<(u32, u64)> = Vec::new();
@@ -671,9 +692,9 @@ impl<'a> Engine<'a> {
     fn op_fmt_probe<F: Fam, const N: usize>(&mut self, s: &mut Sut<F, N>) {
         let which = self.rng.usize_below(3);
         let names = ["set-debug", "set-alt-debug", "set-display"];
-        self.h.begin_step("fmt_probe", format!("fmt probe {}", names[which]));
+        self.step("fmt_probe", || format!("fmt probe {}", names[which]));
         self.fp_step(s, O_FMT, which as u32, 0);
-        self.cx.rep.hit(&format!("fmt:{}:{}", names[which], fill_name(s.model.len(), N)));
+        if !self.light { self.cx.rep.hit(&format!("fmt:{}:{}", names[which], fill_name(s.model.len(), N))); }
         let m = s.fr.get();
         let obs: Vec<(u32, u32)> = m.iter().map(|k| (k.class(), k.tag())).collect();
         match which {
@@ -730,9 +751,9 @@ impl<'a> Engine<'a> {
     }
 
     fn op_fork<F: Fam, const N: usize>(&mut self, s: &mut Sut<F, N>) -> Option<Sut<F, N>> {
-        self.h.begin_step("fork", "clone()".into());
+        self.step("fork", || "clone()".into());
         self.fp_step(s, O_FORK, 0, 0);
-        self.cx.rep.hit(&format!("clone:{}", fill_name(s.model.len(), N)));
+        if !self.light { self.cx.rep.hit(&format!("clone:{}", fill_name(s.model.len(), N))); }
         ledger::log_start();
         let c: Set<F::K, N> = s.fr.get().clone();
         let log = ledger::log_take();
@@ -791,7 +812,7 @@ impl<'a> Engine<'a> {
                         suts.push(t);
                     }
                 } else {
-                    self.h.begin_step("drop-copy", format!("drop copy #{}", ix));
+                    self.step("drop-copy", || format!("drop copy #{}", ix));
                     self.cx.rep.evaluations += 1;
                     self.cx.rep.hit("drop-copy");
                     let dead = suts.remove(ix);
@@ -879,6 +900,9 @@ pub fn history<F: Fam, const N: usize>(cx: &mut Ctx, hist: u64, mut rng: Rng, ma
         rng,
         cfg,
         universe: N as u32 + 3,
+        light: false,
+        focus: 1,
     };
+    e.light = e.cx.args.flag("light");
     e.run_history::<F, N>(max_steps);
 }
